@@ -87,7 +87,7 @@ def runOp (b : Buf) (op : List String) : Option (M (Buf × Nat)) :=
       | "resetmasks" => unit (b.resetMasks (u 0))
       | "ensure" => bool (pure (b.ensure (u 0)))
       | "room" => bool (b.makeRoomFor (u 0) (u 1))
-      | "shiftfwd" => unit (b.shiftForward (u 0))
+      | "shiftfwd" => unit (do let (b, _) ← b.shiftForward (u 0); pure b)
       | "enter" => unit (pure b.enter)
       | "leave" => unit (pure b.leave)
       | "clear" => unit (pure b.clear)
